@@ -6,7 +6,7 @@ from typing import Any, Dict, List
 
 from mc.common import Acc
 from mc.recv_driver import replay as _replay
-from mc.recv_driver import run_scenarios
+from mc.recv_driver import mark_stateless, run_scenarios
 from mc.recv_world import RecvWorld, _exc_table
 
 VALUES: List[Any] = [None, 0, "", "text", 1.5, [1, [2, {"k": None}]], {"a": {"b": [True, False]}}, False]
@@ -195,6 +195,8 @@ def scenarios(tier: str) -> List[Dict[str, Any]]:
 
 def shards(tier: str, seed: int) -> List[Any]:
     scs = scenarios(tier)
+    if tier == "thorough":
+        mark_stateless(scs, 8, 12)
     scs.sort(key=lambda s: (-s["level"], -len(s["msgs"])))
     return [scs[i : i + 10] for i in range(0, len(scs), 10)]
 
